@@ -1470,8 +1470,8 @@ Definition LBq (q : rat) (o : bool) : Z :=
 Definition UBq (q : rat) (o : bool) : Z :=
   if q_is_integer q then fst q - (if o then 1 else 0) else q_floor q.
 
-Lemma lower_int q (o : bool) z : xq_ok (XFin q) ->
-  ((if o then lt xq_cmp (XFin q) (zq z) else le xq_cmp (XFin q) (zq z)) <-> LBq q o <= z).
+Lemma lower_int q (o : bool) z : xq_ok (XQFin q) ->
+  ((if o then lt xq_cmp (XQFin q) (zq z) else le xq_cmp (XQFin q) (zq z)) <-> LBq q o <= z).
 Proof.
   destruct q as [n d]. cbn [xq_ok fst snd]. intros [Hd G].
   unfold lt, le, zq, xq_cmp, LBq, q_is_integer, q_ceiling; cbn [fst snd].
@@ -1485,8 +1485,8 @@ Proof.
     + rewrite Z.compare_gt_iff. lia.
 Qed.
 
-Lemma upper_int q (o : bool) z : xq_ok (XFin q) ->
-  ((if o then lt xq_cmp (zq z) (XFin q) else le xq_cmp (zq z) (XFin q)) <-> z <= UBq q o).
+Lemma upper_int q (o : bool) z : xq_ok (XQFin q) ->
+  ((if o then lt xq_cmp (zq z) (XQFin q) else le xq_cmp (zq z) (XQFin q)) <-> z <= UBq q o).
 Proof.
   destruct q as [n d]. cbn [xq_ok fst snd]. intros [Hd G].
   unfold lt, le, zq, xq_cmp, UBq, q_is_integer, q_floor; cbn [fst snd].
@@ -1501,15 +1501,15 @@ Proof.
 Qed.
 
 (* integers of a bounded non-point interval form the range LBq .. UBq *)
-Lemma int_mem_finite a b (ao bo : bool) z : xq_ok (XFin a) -> xq_ok (XFin b) ->
-  (int_mem z (mkItv (XFin a) (XFin b) ao bo false) <-> LBq a ao <= z <= UBq b bo).
+Lemma int_mem_finite a b (ao bo : bool) z : xq_ok (XQFin a) -> xq_ok (XQFin b) ->
+  (int_mem z (mkItv (XQFin a) (XQFin b) ao bo false) <-> LBq a ao <= z <= UBq b bo).
 Proof.
   intros Oa Ob. unfold int_mem, mem, get_ub; cbn [ia ib ia_open ib_open ipt].
   rewrite (lower_int a ao z Oa), (upper_int b bo z Ob). tauto.
 Qed.
 
 (* a < b leaves room: the smallest integer above a is at most one more than the largest integer below b *)
-Lemma strict_gap a b : xq_ok (XFin a) -> xq_ok (XFin b) -> xq_cmp (XFin a) (XFin b) = Lt ->
+Lemma strict_gap a b : xq_ok (XQFin a) -> xq_ok (XQFin b) -> xq_cmp (XQFin a) (XQFin b) = Lt ->
   LBq a true <= UBq b true + 1.
 Proof.
   intros Oa Ob Hlt.
@@ -1544,27 +1544,27 @@ Proof.
   destruct (d =? 1) eqn:E; auto. apply Z.eqb_eq in E. subst. rewrite div_1. reflexivity.
 Qed.
 
-Lemma int_mem_minf_fin b (ao bo : bool) z : xq_ok (XFin b) ->
-  (int_mem z (mkItv XMinf (XFin b) ao bo false) <-> z <= UBq b bo).
+Lemma int_mem_minf_fin b (ao bo : bool) z : xq_ok (XQFin b) ->
+  (int_mem z (mkItv XQMinf (XQFin b) ao bo false) <-> z <= UBq b bo).
 Proof.
   intros Ob. unfold int_mem, mem, get_ub; cbn [ia ib ia_open ib_open ipt].
   rewrite (upper_int b bo z Ob). unfold lt, le, zq; cbn. destruct ao; split; intros; try tauto; split; auto; discriminate.
 Qed.
-Lemma int_mem_fin_pinf a (ao bo : bool) z : xq_ok (XFin a) ->
-  (int_mem z (mkItv (XFin a) XPinf ao bo false) <-> LBq a ao <= z).
+Lemma int_mem_fin_pinf a (ao bo : bool) z : xq_ok (XQFin a) ->
+  (int_mem z (mkItv (XQFin a) XQPinf ao bo false) <-> LBq a ao <= z).
 Proof.
   intros Oa. unfold int_mem, mem, get_ub; cbn [ia ib ia_open ib_open ipt].
   rewrite (lower_int a ao z Oa). unfold lt, le, zq; cbn. destruct bo; split; intros; try tauto; split; auto; discriminate.
 Qed.
-Lemma int_mem_minf_pinf (ao bo : bool) z : int_mem z (mkItv XMinf XPinf ao bo false).
+Lemma int_mem_minf_pinf (ao bo : bool) z : int_mem z (mkItv XQMinf XQPinf ao bo false).
 Proof. unfold int_mem, mem, get_ub, lt, le, zq; cbn. destruct ao, bo; split; congruence. Qed.
-Lemma int_mem_point a b z : xq_ok (XFin a) ->
-  (int_mem z (mkItv (XFin a) b false false true) <-> LBq a false <= z <= UBq a false).
+Lemma int_mem_point a b z : xq_ok (XQFin a) ->
+  (int_mem z (mkItv (XQFin a) b false false true) <-> LBq a false <= z <= UBq a false).
 Proof.
   intros Oa. unfold int_mem, mem, get_ub; cbn [ia ib ia_open ib_open ipt].
   rewrite (lower_int a false z Oa), (upper_int a false z Oa). tauto.
 Qed.
-Lemma point_int_range a : xq_ok (XFin a) ->
+Lemma point_int_range a : xq_ok (XQFin a) ->
   if q_is_integer a then LBq a false = fst a /\ UBq a false = fst a else UBq a false < LBq a false.
 Proof.
   intros Oa. pose proof (lower_int a false) as L1. pose proof (upper_int a false) as U1.
@@ -1573,8 +1573,8 @@ Proof.
   unfold q_is_integer in E; cbn [snd] in E. apply Z.eqb_neq in E.
   destruct (Z_lt_le_dec (q_floor (n, d)) (q_ceiling (n, d))) as [K|K]; [exact K|exfalso].
   set (z := q_ceiling (n, d)) in *.
-  assert (A : le xq_cmp (XFin (n, d)) (zq z)) by (apply (L1 z); [split; auto | lia]).
-  assert (B : le xq_cmp (zq z) (XFin (n, d))) by (apply (U1 z); [split; auto | lia]).
+  assert (A : le xq_cmp (XQFin (n, d)) (zq z)) by (apply (L1 z); [split; auto | lia]).
+  assert (B : le xq_cmp (zq z) (XQFin (n, d))) by (apply (U1 z); [split; auto | lia]).
   unfold le, zq, xq_cmp in A, B; cbn [fst snd] in A, B. rewrite Z.compare_gt_iff in A, B.
   apply (not_multiple n d z Hd G E). lia.
 Qed.
@@ -1658,7 +1658,7 @@ Proof.
       { unfold ca, m. destruct ao; cbn [negb andb]; [lia|]. rewrite LBq_closed. reflexivity. }
       assert (EU : UBq qb bo = u + (if cb then 1 else 0)).
       { unfold cb, u. destruct bo; cbn [negb andb]; [lia|]. rewrite UBq_closed. reflexivity. }
-      assert (MEM : forall z, int_mem z (mkItv (XFin qa) (XFin qb) ao bo false) <->
+      assert (MEM : forall z, int_mem z (mkItv (XQFin qa) (XQFin qb) ao bo false) <->
                               m - (if ca then 1 else 0) <= z <= u + (if cb then 1 else 0)).
       { intro z. rewrite int_mem_finite by auto. rewrite EL, EU. tauto. }
       unfold fits_int. assert (LMn : LONG_MIN = -9223372036854775808) by reflexivity.
